@@ -59,6 +59,13 @@ def main():
                     ctx.discharged.append(t)
             for hit in core.forbidden_tokens(prop):
                 ctx.undischarged.append({'forbidden_token': hit})
+            if args.tier == 'thorough':
+                # independent re-check of the compiled theorems (and everything of this project they rest on)
+                cmods = core.closure_modules(prop)
+                rc, log = core.run(['lake', 'env', 'leanchecker'] + cmods, cwd=core.LEAN, timeout=7200)
+                ctx.notes.append('leanchecker re-checked %d modules: rc=%d' % (len(cmods), rc))
+                if rc != 0:
+                    ctx.undischarged.append({'leanchecker': log[-1500:]})
         else:
             ctx.undischarged = [{'theorem': t, 'reason': 'build broken after regeneration'} for t in ctx.theorems]
         # 3./4./5. corpus, generated cases, correspondence + oracle
